@@ -62,7 +62,7 @@ def cases(tier):
             for li in range(4):
                 if li == 3 and nc < 3:
                     continue
-                for fam in ('assign1', 'assign2', 'drop', 'mask', 'astype', 'labels'):
+                for fam in ('assign1', 'assign2', 'drop', 'mask', 'astype', 'labels', 'bloc'):
                     yield ('frame', fam, rk, ck, nr, nc, li)
 
 
@@ -373,6 +373,29 @@ def run_frame(case, ctx):
                             if gm.shape != (nr, nc) or [[bool(gm[i, j]) for i in range(nr)] for j in range(nc)] != expm:
                                 ctx.violation(f'{tag}|mask', **info, got=gm.tolist())
             unchanged(ctx, f'frame.{fam}', f, before, info)
+    elif fam == 'bloc':
+        # Boolean-frame assignment: every mask over the cells x {element, same-shape array, Boolean Frame key with permuted labels}
+        for bits in itertools.product((False, True), repeat=nr * nc):
+            m = np.array(bits, dtype=bool).reshape(nr, nc)
+            info = dict(base, route='assign.bloc', mask=bits)
+            ctx.state(('bloc', rk, ck, nr, nc, sig, bits))
+            if any(bits) and not all(bits):
+                ctx.nontriv(('bloc', rk, ck, nr, nc, bits))
+            arr2 = np.array([[1000 + 10 * i + j for j in range(nc)] for i in range(nr)])
+            keyf = sf.Frame(m, index=f.index, columns=f.columns)
+            keyp = keyf.iloc[::-1, ::-1] if nr and nc else keyf
+            for kname, key in (('array', m), ('frame', keyf), ('frame-permuted', keyp)):
+                for vname, v in (('element', FILL), ('array-2d', arr2)):
+                    ctx.transition()
+                    tag = f'frame.assign.bloc|key={kname}|value={vname}'
+                    try:
+                        r = f.assign.bloc[key](v)
+                    except Exception as e:
+                        ctx.violation(f'{tag}|raises-{type(e).__name__}', **info, error=repr(e))
+                        continue
+                    exp = [[(v if vname == 'element' else arr2[i, j]) if m[i, j] else grid[j][i] for i in range(nr)] for j in range(nc)]
+                    check_result(tag, r, exp, info, addressed_cols={j for j in range(nc) if m[:, j].any()} if li in (0, 2) else None)
+            unchanged(ctx, 'frame.bloc', f, before, info)
     elif fam == 'astype':
         targets = [('float', float, 'float64'), ('str', str, None), ('object', object, 'object')]
         for kname, k in label_keys(ck, cref, full=False):
